@@ -1,4 +1,6 @@
 import SciVerif.Lemmas.C13c
+import SciVerif.Lemmas.C14c
+import SciVerif.Lemmas.C14d
 
 /-!
 # C14 — The last assignment wins, in the units and type of the definition
@@ -102,13 +104,15 @@ theorem C14_last_wins_in_program (P : Params) (s s' : State) (nd : Node) (nm : S
   obtain ⟨v, hv, he'⟩ := C14_last_wins_step P e e' nd h6
   exact ⟨pre, e, e', post, h1, h2, h3, fun x hx => by rw [h3]; exact h5 x hx, v, hv, he'⟩
 
-/-- An assignment without unit, or written in the definition's own unit, is stored unchanged:
-    it is taken to be in the definition's unit. -/
+/-- An assignment without unit, or (numeric types) written in the definition's own unit, is stored
+    unchanged: it is taken to be in the definition's unit. -/
 theorem C14_unitless_is_definition_unit (P : Params) (ty : Ty) (u0 : Option Str) (v : Val) :
-    convertVal P ty u0 none v = .ok v ∧ convertVal P ty u0 u0 v = .ok v := by
+    convertVal P ty u0 none v = .ok v ∧
+    ((ty = .int ∨ ty = .float) → convertVal P ty u0 u0 v = .ok v) := by
   constructor
-  · cases ty <;> cases u0 <;> simp [convertVal]
-  · cases ty <;> cases u0 <;> simp [convertVal]
+  · cases ty <;> cases u0 <;> simp [convertVal, convertG]
+  · intro h
+    rcases h with rfl | rfl <;> cases u0 <;> simp [convertVal, convertG]
 
 /-- A numeric value written in another unit `uk ≠ u0` is stored as `conv uk u0` of it. -/
 theorem C14_converted_into_definition_unit (P : Params) (u0 uk : Str) (q : Rat) (hne : uk ≠ u0) :
@@ -117,8 +121,14 @@ theorem C14_converted_into_definition_unit (P : Params) (u0 uk : Str) (q : Rat) 
     convertVal P .int (some u0) (some uk) (.scalar (.num q)) =
       (P.conv uk u0 q).map (fun q' => .scalar (.num q')) := by
   constructor <;>
-  · simp only [convertVal, hne, if_false, bind, Except.bind]
+  · simp only [convertVal, convertG, hne, if_false, bind, Except.bind]
     cases P.conv uk u0 q <;> rfl
+
+/-- a numeric value with a unit cannot be assigned to a parameter defined without unit, and a
+    bool / str parameter accepts no unit at all (both are "a unit of another dimension") -/
+theorem C14_reject_unit_on_unitless (P : Params) (ty : Ty) (uk : Str) (v : Val) :
+    convertVal P ty none (some uk) v = .error .fail := by
+  cases ty <;> simp [convertVal, convertG]
 
 /-- a failing iteration makes the whole parse fail: no environment is returned -/
 theorem C14_error_is_final (P : Params) (a b : List Node) (nd : Node) (s1 : State) (x : Err)
@@ -147,7 +157,7 @@ theorem C14_reject_dimension_modify (P : Params) (e : ENode) (nd : Node) (s uk u
   have hv : (Val.scalar (Atom.num q) = Val.none) = False := by simp
   rcases hty with hty | hty <;>
   · rw [hty] at hm hc
-    simp [C13.modify, hm, hr, hc, hu0, huk, hty, convertVal, hne, hconv, bind, Except.bind]
+    simp [C13.modify, hm, hr, hc, hu0, huk, hty, convertVal, convertG, hne, hconv, bind, Except.bind]
 
 /-- an assignment to a path whose (only) entry is marked constant is rejected -/
 theorem C14_reject_constant (P : Params) (s : State) (nd : Node) (nm : Str) (e : ENode)
@@ -204,5 +214,85 @@ theorem C14_reject_unassigned (P : Params) (t : Ty) (dims : Option (List Dim)) (
   have : s.nodes.any (fun e => e.value.isNone) = true :=
     List.any_eq_true.mpr ⟨e, he, by simp [hv]⟩
   simp [this]
+
+
+/-! ### end to end: the model's run is the specification -/
+
+/-- **The model's parse is the specification.**  For every sequence of lexed nodes (tables already
+    expanded; value-bearing lines named, modifications with a value — what the lexer produces),
+    `DIP.parse` of the model and the declarative specification on the corresponding abstract lines
+
+      * parent = nearest earlier name-bearing line with smaller indentation, path = ancestors' names + own name;
+      * one parameter per distinct path in order of first appearance;
+      * type, width/sign, dimension, unit of the first occurrence; value of the last occurrence cast to
+        that type and shape and converted from its own unit (or none) into the definition's unit;
+      * failure for another type, a unit of another dimension or an unknown unit, a unit for a
+        unit-less or non-numeric parameter, an assignment after `!constant`, an assignment to an undefined
+        path, a declared path never assigned, a value that does not fit the type or shape
+
+    either both succeed with the same list of parameters (paths, order, types, units, values,
+    constant flags), or both fail.  Chains of any length, anywhere in a hierarchy. -/
+theorem C14_parse_refines_spec (P : Params) (nds : List Node) (hwf : ∀ nd ∈ nds, NodeWF nd) :
+    ResEq ((parseNodes P nds).map (List.map toS))
+      (specRunG (castInterp P) P.conv P.unitKnown (nds.map toALine)) := by
+  have hplain : ∀ nd ∈ nds, nd.kind ≠ .table := fun nd h => (hwf nd h).1
+  have hinv : Inv ({} : State) [] := ⟨rfl, by simp [enames]⟩
+  have hsim := foldSteps_sim P nds {} [] hwf hinv
+  simp only [enames, List.map_nil] at hsim
+  -- the model side: run, then validate
+  have hmodel : (parseNodes P nds).map (List.map toS) =
+      ((foldSteps P {} nds).map (fun s => s.nodes.map toS)).bind checkS := by
+    simp only [parseNodes, runNodes_plain P nds {} hplain, bind, Except.bind]
+    cases foldSteps P {} nds with
+    | error e => rfl
+    | ok s => exact validate_toS s.nodes
+  rw [hmodel]
+  simp only [specRunG, specOcc]
+  by_cases hnone : (occurrences [] [] (nds.map toALine)).any (fun o => o.1.isNone) = true
+  · -- a `!constant` with nothing to mark
+    simp only [hnone, if_true]
+    obtain ⟨o, ho, hoo⟩ := List.any_eq_true.mp hnone
+    obtain ⟨e, he⟩ := foldO_none_fails (castInterp P) P.conv P.unitKnown _ [] ⟨o, ho, hoo⟩
+    have : specFold P [] (occurrences [] [] (nds.map toALine)) = .error e := he
+    rw [this] at hsim
+    rcases hsim with ⟨x, _, h2⟩ | ⟨e1, e2, h1, _⟩
+    · cases h2
+    · rw [h1]; exact .inr ⟨e1, .fail, rfl, rfl⟩
+  · simp only [hnone, Bool.false_eq_true, if_false]
+    have hall : ∀ o ∈ occurrences [] [] (nds.map toALine), o.1.isSome = true := by
+      intro o ho
+      cases h : o.1 with
+      | some p => rfl
+      | none => exact absurd (List.any_eq_true.mpr ⟨o, ho, by simp [h]⟩) hnone
+    have hper := foldO_eq_perPath (castInterp P) P.conv P.unitKnown _ [] (by simp [snames]) hall
+    have hpaths : pathsFrom [] (occurrences [] [] (nds.map toALine)) = pathsOf (occurrences [] [] (nds.map toALine)) := by
+      simp [pathsFrom, pathsOf, snames]
+    have hnode : nodeFrom (castInterp P) P.conv P.unitKnown [] (occurrences [] [] (nds.map toALine)) =
+        (fun p => specNode (castInterp P) P.conv P.unitKnown p (occurrences [] [] (nds.map toALine))) := by
+      funext p
+      simp only [nodeFrom, specNode, findS, List.find?_nil]
+      cases occOf p (occurrences [] [] (nds.map toALine)) <;> rfl
+    rw [hpaths, hnode] at hper
+    have := (hsim.trans hper).bind checkS checkS (fun x => ResEq.refl _)
+    simpa [checkS, bind, Except.bind] using this
+
+example : NodeWF { kind := .mod, name := some ['a'], raw := some (.text ['0']) } :=
+  ⟨by decide, fun _ => ⟨rfl, rfl⟩, fun t h => by cases h⟩
+
+/-- The same from text: whatever the lexer makes of the queued lines is well-formed, so for every
+    program without table lines `parse` on the lines and the specification on their abstract
+    lines agree (both succeed with the same parameters, or both fail). -/
+theorem C14_text_refines_spec (P : Params) (lines : List Str) (nds : List Node)
+    (hlex : lines.mapM determine = .ok nds) (hnt : ∀ nd ∈ nds, nd.kind ≠ .table) :
+    ResEq ((parseLines P lines).map (List.map toS))
+      (specRunG (castInterp P) P.conv P.unitKnown (nds.map toALine)) := by
+  have hwf : ∀ nd ∈ nds, NodeWF nd := by
+    intro nd hnd
+    obtain ⟨l, _, hl⟩ := mapM_ok_mem determine lines nds hlex nd hnd
+    have := determine_wf l nd hl
+    exact ⟨hnt nd hnd, this.1, this.2⟩
+  have : parseLines P lines = parseNodes P nds := by simp [parseLines, hlex, bind, Except.bind]
+  rw [this]
+  exact C14_parse_refines_spec P nds hwf
 
 end SciVerif.C14
